@@ -9,7 +9,7 @@ Definition class_eqb (a b : aclass) : bool :=
   && Bool.eqb (c_depr a) (c_depr b) && Bool.eqb (c_synth a) (c_synth b)
   && oeqb (leqb inner_eqb) (c_inner a) (c_inner b)
   && leqb ann_eqb (c_vis a) (c_vis b) && leqb ann_eqb (c_inv a) (c_inv b)
-  && N.eqb (c_perm a) (c_perm b) && N.eqb (c_rec a) (c_rec b) && N.eqb (c_rest a) (c_rest b).
+  && oeqb (leqb str_eqb) (c_perm a) (c_perm b) && N.eqb (c_rec a) (c_rec b) && N.eqb (c_rest a) (c_rest b).
 
 Definition ocontent_eqb (a b : ocontent) : bool :=
   match a, b with
@@ -20,15 +20,44 @@ Definition ocontent_eqb (a b : ocontent) : bool :=
   | _, _ => false
   end.
 
-Definition oentry_eqb (a b : oentry) : bool :=
-  str_eqb (o_name a) (o_name b) && N.eqb (o_attr a) (o_attr b) && ocontent_eqb (o_content a) (o_content b).
+(* What the comparison of a merged jar demands.  The property (and props/c13.py) leaves four things
+   open, and the comparison leaves them open as well, so that a change of the implementation in
+   one of them is not reported as a disagreement:
+   - whether a merge that yields no jar returns Err or panics (Fail / Panic are one outcome here),
+   - the zip attributes (time stamps) of the merged entries,
+   - the order of the entries of the merged jar (entries are matched by name),
+   - which side's bytes a resource that differs between the sides gets (either is accepted).
+   The harness records how often the implementation agrees with the model exactly in these
+   respects (report notes), it does not require it. *)
+Definition find_entry (j : jar) (name : str) : option entry := find (fun e => str_eqb (e_name e) name) j.
+Definition resource_of (j : jar) (name : str) : option (list N) :=
+  match find_entry j name with
+  | Some e => match e_content e with Other d => Some d | _ => None end
+  | None => None
+  end.
 
-Definition out_eqb {A} (eqb : A -> A -> bool) (a b : out A) : bool :=
-  match a, b with
-  | OK x, OK y => eqb x y
-  | Fail, Fail => true
-  | Panic, Panic => true
+Definition content_ok (c s : jar) (name : str) (model impl : ocontent) : bool :=
+  ocontent_eqb model impl ||
+  match model, impl with
+  | OOther _, OOther d =>
+      negb (str_eqb name s_manifest) &&
+      match resource_of c name, resource_of s name with
+      | Some _, Some ds => leqb N.eqb d ds
+      | _, _ => false
+      end
   | _, _ => false
+  end.
+
+Definition entries_ok (c s : jar) (model impl : list oentry) : bool :=
+  Nat.eqb (length model) (length impl)
+  && forallb (fun i => existsb (fun m => str_eqb (o_name m) (o_name i) && content_ok c s (o_name i) (o_content m) (o_content i)) model) impl
+  && forallb (fun m => existsb (fun i => str_eqb (o_name m) (o_name i)) impl) model.
+
+Definition outcome_ok (c s : jar) (model impl : out (list oentry)) : bool :=
+  match model, impl with
+  | OK x, OK y => entries_ok c s x y
+  | OK _, _ | _, OK _ => false
+  | _, _ => true                           (* Fail / Panic: no jar *)
   end.
 
 (* all duplicate-free lists over [alpha] of length <= n, in a fixed order *)
@@ -57,5 +86,5 @@ Definition check (c : case) : bool :=
   | CMpoSweep alpha n rs =>
       leqb (leqb N.eqb)
         (map (fun p => mpo N.eqb (fst p) (snd p)) (all_pairs (nodup_lists alpha (N.to_nat n)))) rs
-  | CMerge c s r => out_eqb (leqb oentry_eqb) (merge_jar c s) r
+  | CMerge c s r => outcome_ok c s (merge_jar c s) r
   end.
